@@ -211,6 +211,9 @@ func canon(name, args, dir string, fds map[string]string) string {
 		if len(paths) == 0 || !inDir(paths[0][1]) {
 			return ""
 		}
+		if strings.Contains(args, "AT_REMOVEDIR") {
+			return "" // os.Remove tries rmdir after a failed unlink: not a separate step of the protocol
+		}
 		return "unlink " + base(paths[0][1], dir)
 	case "truncate":
 		if len(paths) == 0 || !inDir(paths[0][1]) {
@@ -504,12 +507,36 @@ func main() {
 					continue
 				}
 				d := copyDir(pre)
-				_, vo, _ := straceVictim(d, j.op, fmt.Sprintf("%s:error=%s:when=%d", c.name, errno, c.nth))
+				ftrace, vo, _ := straceVictim(d, j.op, fmt.Sprintf("%s:error=%s:when=%d", c.name, errno, c.nth))
 				r := strings.TrimSpace(strings.TrimPrefix(strings.TrimSpace(vo), "VICTIM "))
+				var ftexts []string
+				for _, fc := range opCalls(ftrace, d) {
+					ftexts = append(ftexts, fc.text)
+				}
+				if os.Getenv("VERIF_TRACE") != "" {
+					fmt.Fprintf(os.Stderr, "FAULT pre=%s op=%s point=%d (%s %s) -> %s\n  %s\n", j.pre.name, j.op, i, c.text, errno, r, strings.Join(ftexts, "\n  "))
+				}
 				o := normalize(observe(d))
 				os.RemoveAll(d)
 				res.Requests++
 				res.Features["fault-"+errno]++
+				// the error handling of the chain-changing operations is the one the Lean model
+				// (Model/CrashFail.lean, theorems c08_*_fault) is about: same calls, same result
+				if line, ok := crashModelLine(rawOld, j.op); ok && opRes == "ok" && i < len(ftexts) {
+					if exp, ok := crashModelCalls(fmt.Sprintf("%s fail %d", line, i)); ok {
+						got := append([]string{}, ftexts...)
+						got[i] = "!" + got[i]
+						gr := "err"
+						if r == "ok" {
+							gr = "ok"
+						}
+						if g := strings.Join(got, ";") + " => " + gr; g != exp {
+							fail("with a failing "+c.text+" ("+errno+") the calls or the result of the operation differ from the crash model's error handling",
+								"implementation:\n  "+strings.ReplaceAll(g, ";", "\n  ")+"\n--- model ("+line+" fail "+fmt.Sprint(i)+"):\n  "+strings.ReplaceAll(exp, ";", "\n  "), i)
+						}
+						res.Features["fault-model-trace-tie"]++
+					}
+				}
 				switch {
 				case o == "UNOPENABLE":
 					fail("a failing "+c.text+" ("+errno+") left a directory that cannot be reopened; operation reported "+r, o, i)
